@@ -144,6 +144,9 @@ def finder_calls(inputs, output, size):
     calls.append(("optimize_greedy", opt_greedy))
     calls.append(("optimize_random_greedy_track_flops", lambda: ("path", PB.optimize_random_greedy_track_flops(inputs, output, size, ntrials=1, seed=stubs.SymRng("rg", uniform_mode="grid"))[0])))
     calls.append(("RandomGreedyOptimizer.search", lambda: ("tree", PB.RandomGreedyOptimizer(max_repeats=1, seed=stubs.SymRng("rgo", uniform_mode="grid"), accel=False, parallel=False).search(inputs, output, size))))
+    calls.append(("optimize_random_greedy_track_flops[2 trials]", lambda: ("path", PB.optimize_random_greedy_track_flops(inputs, output, size, ntrials=2, seed=stubs.SymRng("rg2", uniform_mode="grid"))[0])))
+    calls.append(("RandomGreedyOptimizer[2 repeats] (path)", lambda: ("path", PB.RandomGreedyOptimizer(max_repeats=2, seed=stubs.SymRng("rgp", uniform_mode="grid"), accel=False, parallel=False)(inputs, output, size))))
+    calls.append(("RandomGreedyOptimizer[2 repeats].search", lambda: ("tree", PB.RandomGreedyOptimizer(max_repeats=2, seed=stubs.SymRng("rgs", uniform_mode="grid"), accel=False, parallel=False).search(inputs, output, size))))
     calls.append(("RandomOptimizer", lambda: ("path", RandomOptimizer(seed=stubs.SymRng("ro", max_draws=4 * n + 6))(inputs, output, size))))
     calls.append(("RandomOptimizer.search", lambda: ("tree", RandomOptimizer(seed=stubs.SymRng("ro", max_draws=4 * n + 6)).search(inputs, output, size))))
     calls.append(("GreedyOptimizer.search", lambda: ("tree", PB.GreedyOptimizer().search(inputs, output, size))))
@@ -235,6 +238,12 @@ def run_item(item, rec):
                     def harness(ctx, ci=ci, case=case):
                         _r.seed(99)
                         PB.GumbelBatchedGenerator = stubs.SymGumbel
+                        stubs.SymGumbel.log = []
+                        stubs.SymRng.instances = []
+
+                        def scripts(m):
+                            return dict(gumbel=[float(symx.eval_model(m, g)) for g in stubs.SymGumbel.log],
+                                        rng=[[[k, (x if not isinstance(x, (list, tuple)) else list(x))] for k, x in stubs.script_from_model(m, r)] for r in stubs.SymRng.instances])
                         thunk = finder_calls(inputs, output, size)[ci][1]
                         try:
                             kind, res = thunk()
@@ -259,7 +268,7 @@ def run_item(item, rec):
                         else:
                             prob = tree_ok(res, inputs)
                         rec.refute(ctx, prob is not None, "complete well-formed contraction",
-                                   lambda m: dict(case=case, problem=prob, signature=["C05", case["finder"], list(inputs), output, str(prob)[:50]]))
+                                   lambda m: dict(case=case, problem=prob, scripts=scripts(m), signature=["C05", case["finder"], list(inputs), output, str(prob)[:50]]))
 
                     rec.add_explore(symx.explore(harness, max_paths=(60 if tier == "quick" else 1500), deadline_s=(6 if tier == "quick" else 120)))
                 # real kahypar (concrete)
@@ -299,7 +308,35 @@ def replay(v):
     else:
         table = None
     probs = []
-    for seed in range(12):
+    import cotengra.pathfinders.path_basic as PB
+
+    attempts = list(range(12))
+    sc = v.get("scripts")
+    if sc and table is None and (sc.get("gumbel") or sc.get("rng")):
+        attempts = ["script"] + attempts
+    for seed in attempts:
+        orig_g = PB.GumbelBatchedGenerator
+        if seed == "script":
+            # the solver's noise realisation, replayed on the real code
+            stubs.ScriptedGumbel.script, stubs.ScriptedGumbel.pos = list(sc.get("gumbel") or []), 0
+            PB.GumbelBatchedGenerator = stubs.ScriptedGumbel
+            _r.seed(99)
+            try:
+                kind, res = concrete_call(name, inputs, output, size, stubs.ScriptedRng([tuple(x) for x in (sc.get("rng") or [[]])[0]]))
+            except Exception:  # noqa -- the script does not fit a concrete run: fall back to ordinary seeds
+                continue
+            finally:
+                PB.GumbelBatchedGenerator = orig_g
+            bad = None
+            if kind == "path":
+                res = [tuple(p) for p in res]
+                if not valid_linear(res, n):
+                    bad = f"returned path {res}: not a valid complete path over {n} tensors"
+            elif kind == "tree":
+                bad = tree_ok(res, inputs)
+            if bad:
+                return True, f"{name} on {','.join(inputs)}->{output}: {bad} (noise realisation chosen by the solver: gumbel draws {[round(g, 3) for g in sc.get('gumbel', [])][:8]}...)"
+            continue
         _r.seed(seed)
 
         class SeededCtx:
@@ -354,6 +391,12 @@ def concrete_call(name, inputs, output, size, seed):
         return "path", PB.optimize_greedy(inputs, output, size, costmod=rng.choice([0.1, 1.0, 4.0]), temperature=rng.choice([0.0, 0.5]))
     if name == "optimize_random_greedy_track_flops":
         return "path", PB.optimize_random_greedy_track_flops(inputs, output, size, ntrials=1, seed=seed)[0]
+    if name == "optimize_random_greedy_track_flops[2 trials]":
+        return "path", PB.optimize_random_greedy_track_flops(inputs, output, size, ntrials=2, seed=seed)[0]
+    if name == "RandomGreedyOptimizer[2 repeats] (path)":
+        return "path", PB.RandomGreedyOptimizer(max_repeats=2, seed=seed, accel=False, parallel=False)(inputs, output, size)
+    if name == "RandomGreedyOptimizer[2 repeats].search":
+        return "tree", PB.RandomGreedyOptimizer(max_repeats=2, seed=seed, accel=False, parallel=False).search(inputs, output, size)
     if name == "RandomGreedyOptimizer.search":
         return "tree", PB.RandomGreedyOptimizer(max_repeats=1, seed=seed, accel=False, parallel=False).search(inputs, output, size)
     if name == "RandomOptimizer":
